@@ -529,7 +529,9 @@ def readConst (fuel : Nat) : P Const := do
          else if ((trimQuotes tk.concrete).filter (· != 0x2d)).length != 32 then fail
          else pure tk.concrete)
       else if strEq ty "string" then
-        (if tk.kind != .strLit then fail else pure tk.concrete)
+        (if tk.kind != .strLit then fail
+         else if !goStringLitOk tk.concrete then fail      -- the literal is copied into the Go source as it stands
+         else pure tk.concrete)
       else if strEq ty "bool" then
         (if tk.kind != .kTrue && tk.kind != .kFalse then fail else pure tk.concrete)
       else fail : P Str)
